@@ -166,7 +166,7 @@ history_prop!(
         ..Which::default()
     },
     history_strategy(80, 0, 3, 8, 2, 0),
-    3_000,
+    16_000,
     80_000,
     special_seen
 );
@@ -200,7 +200,7 @@ history_prop!(
         ..Which::default()
     },
     history_strategy(60, 1, 3, 8, 4, 0),
-    1_500,
+    8_000,
     40_000,
     |it: &Interp| special_seen(it) && it.max_depth >= 4
 );
@@ -229,7 +229,7 @@ history_prop!(
     )
         .prop_map(|(fen, ops)| History { fen, ops })
         .boxed(),
-    1_000,
+    4_000,
     25_000,
     |it: &Interp| it.max_depth >= 100 && it.max_quiet_stretch >= 50
 );
@@ -250,7 +250,7 @@ history_prop!(
     )
         .prop_map(|(fen, ops)| History { fen, ops })
         .boxed(),
-    400,
+    2_000,
     10_000,
     |it: &Interp| it.max_depth >= 256
 );
@@ -271,6 +271,19 @@ fn marathon() -> BoxedStrategy<History> {
     })
     .boxed()
 }
+
+history_prop!(
+    C03Marathon,
+    "C03/marathon",
+    Which {
+        successor: true,
+        ..Which::default()
+    },
+    marathon(),
+    160,
+    3_000,
+    |it: &Interp| it.max_depth >= 1024
+);
 
 history_prop!(
     C04Marathon,
@@ -334,7 +347,7 @@ history_prop!(
         ..Which::default()
     },
     history_strategy(120, 1, 4, 8, 3, 0),
-    8_000,
+    40_000,
     200_000,
     |it: &Interp| {
         it.saw.iter().any(|l| matches!(*l, "ep-target-expired" | "rights-lost-by-moving" | "home-rook-captured-with-right" | "castle" | "en-passant"))
@@ -354,7 +367,7 @@ history_prop!(
         ..Which::default()
     },
     history_strategy(300, 2, 3, 6, 3, 0),
-    5_000,
+    24_000,
     120_000,
     special_seen
 );
@@ -368,7 +381,7 @@ history_prop!(
         ..Which::default()
     },
     history_strategy(80, 1, 3, 8, 3, 0),
-    1_500,
+    8_000,
     40_000,
     special_seen
 );
@@ -393,7 +406,7 @@ history_prop!(
     )
         .prop_map(|(fen, ops)| History { fen, ops })
         .boxed(),
-    600,
+    3_000,
     15_000,
     |it: &Interp| it.max_depth >= 128
 );
@@ -428,7 +441,7 @@ impl Prop for C12EngineDriven {
             .boxed()
     }
     fn cases(&self, tier: Tier) -> u32 {
-        tier.pick(3_000, 80_000)
+        tier.pick(12_000, 80_000)
     }
     fn test(&self, w: &EngineWalk, st: &mut Stats) -> TestResult {
         use chess::move_generator::MoveGenerator;
@@ -519,7 +532,7 @@ history_prop!(
     )
         .prop_map(|(fen, ops)| History { fen, ops })
         .boxed(),
-    2_000,
+    12_000,
     50_000,
     |it: &Interp| {
         (it.max_quiet_stretch >= 20 && it.pawn_move_inside_stretch)
